@@ -6,7 +6,7 @@ import ast
 from ..core import Run, AnalysisError, dotted, norm
 from ..dim import World
 from ..flow import CFG, Fn, node_calls, node_of, conditions_for, stmt_of
-from .collectors import CQ, run_collector_rules, homomorphism, _fn
+from .collectors import CQ, run_collector_rules, homomorphism, _fn, sum_like_discipline
 
 EXPLANATION = (
     "Structural necessary conditions of a compositional collector, decided on collect_quantity.py and Quantity.__init__: "
@@ -61,10 +61,10 @@ def check(run: Run) -> None:
     if any(k not in h for k in ("Mul", "Add", "Pow", "Derivative", "SymFunction", "SymQuantity", "Prefix")):
         return  # a missing dispatch entry is reported by S2; the handler-specific rules have nothing to look at
     # S3
-    sum_like_rules(run, mod, h["Add"], "Add")
+    sum_like_discipline(run, mod, h["Add"], "Add", "collect_quantity_factor_and_dimension")
     mm = h.get("MinMaxBase") or h.get("Min")
     if mm is not None:  # absence is reported by S2
-        sum_like_rules(run, mod, mm, "Min/Max")
+        sum_like_discipline(run, mod, mm, "Min/Max", "collect_quantity_factor_and_dimension")
     for cls, what in (("Pow", "exponent"), ("SymFunction", "argument")):
         if cls not in h:
             continue
